@@ -285,6 +285,7 @@ fn writer_case_inner(toks: &[&str]) -> String {
     let ovh = probe.len();
     let s0 = ovh + "Starting log writer".len();
     let mut out = format!("ovh={ovh} s0={s0}");
+    let t_case = SystemTime::now(); // ages of pre-existing entries count back from here (equal ages = equal mtimes)
     let mut entries: Vec<(String, String)> = Vec::new(); // (label, file name)
     let mut sender: Option<SyncSender<LogEvent>> = None;
     let mut next_id: u64 = 0;
@@ -309,7 +310,7 @@ fn writer_case_inner(toks: &[&str]) -> String {
                     content[size - 1] = b'\n';
                 }
                 f.write_all(&content).unwrap();
-                f.set_modified(SystemTime::now() - Duration::from_millis(age_ms)).unwrap();
+                f.set_modified(t_case - Duration::from_millis(age_ms)).unwrap();
             }
             entries.push((label.to_string(), name));
             i += 4;
